@@ -1,5 +1,6 @@
 import DelbModel.Model.Pretty
 import DelbModel.Lemmas.Pretty
+import DelbModel.Lemmas.PrettyLayout
 /-!
 # C18 — Indented output puts each structural child on its own line at its depth
 
@@ -59,5 +60,178 @@ example :
       | .ok ps => String.ofList (renderP ps)
       | .error _ => "")
     = "<root>\n  <a>\n    hi\n  </a>\n  <b x=\"foo\">\n    <c/>\n  </b>\n</root>" := by rfl
+
+/-! ## declarative layout facts
+
+The statements below are about the reference output (`refStartTag` = the lines of a start tag,
+`ppRef` = the lines of a node); by `c18_pretty_eq_reference` (whole tree) and
+`c18_serializer_start_tag` (a single start tag piece) they are facts about what the
+PrettySerializer writes.  Helper lemmas are in `DelbModel/Lemmas/PrettyLayout.lean`. -/
+
+open Delb.WS
+
+/-- aligned attributes: with `align_attributes` and more than one attribute (the condition of
+    `PrettySerializer._serialize_attributes`) the start tag at nesting depth `level` is the line
+    `<name`, then one line per attribute — indentation of the tag, one space, one more indentation
+    string, padding, `name="value"` — then the closing bracket on its own line.  The padding
+    consists of spaces and padding plus name is equally long (`W`, the length of the longest name)
+    for all attributes of the tag, so their equal signs sit in one column. -/
+theorem c18_aligned_equal_signs (o : Opts) (hi : o.indent ≠ []) (level : Nat) (qn : Str)
+    (ad : List (Str × Str)) (close : Str) (hal : o.align = true) (hn : ad.length > 1) :
+    ∃ (W : Nat) (pad : Str × Str → Str),
+      (∀ kv ∈ ad, kv.1.length ≤ W) ∧ (∃ kv ∈ ad, kv.1.length = W) ∧
+      (∀ kv ∈ ad, (∀ c ∈ pad kv, c = ' ') ∧ (pad kv ++ kv.1).length = W) ∧
+      refStartTag o level qn ad close
+        = [indentN o level ++ ['<'] ++ qn]
+          ++ ad.map (fun kv => indentN o level ++ [' '] ++ o.indent ++ pad kv ++ kv.1
+                ++ ['=', '"'] ++ escapeAttr kv.2 ++ ['"'])
+          ++ [indentN o level ++ close] :=
+  ⟨nameWidth ad, namePad ad, fun _ h => nameWidth_le h,
+    nameWidth_attained (by intro h0; simp [h0] at hn),
+    fun kv h => ⟨namePad_spaces ad kv, namePad_length h⟩,
+    refStartTag_aligned' o hi level qn ad close hal hn⟩
+
+/-- the same fact read off the lines: there is one column `col` such that the `i`-th attribute line
+    (line `i + 1` of the start tag) has its equal sign at position `col`, and everything before it
+    is the indentation, spaces and the attribute's name -/
+theorem c18_equal_sign_column (o : Opts) (hi : o.indent ≠ []) (level : Nat) (qn : Str)
+    (ad : List (Str × Str)) (close : Str) (hal : o.align = true) (hn : ad.length > 1) :
+    ∃ col : Nat, ∀ (i : Nat) (h : i < ad.length),
+      ∃ (l pad : Str), (refStartTag o level qn ad close)[i + 1]? = some l ∧ (∀ c ∈ pad, c = ' ') ∧
+        l.take col = indentN o level ++ [' '] ++ o.indent ++ pad ++ ad[i].1 ∧
+        l[col]? = some '=' := by
+  refine ⟨(indentN o level ++ [' '] ++ o.indent).length + nameWidth ad, fun i h => ?_⟩
+  have hlen : (indentN o level ++ [' '] ++ o.indent ++ namePad ad ad[i] ++ ad[i].1).length
+      = (indentN o level ++ [' '] ++ o.indent).length + nameWidth ad := by
+    have := namePad_length (ad := ad) (kv := ad[i]) (List.getElem_mem h)
+    simp only [List.length_append] at this ⊢
+    omega
+  refine ⟨(indentN o level ++ [' '] ++ o.indent ++ namePad ad ad[i] ++ ad[i].1)
+            ++ '=' :: '"' :: (escapeAttr ad[i].2 ++ ['"']), namePad ad ad[i], ?_, namePad_spaces ad _, ?_, ?_⟩
+  · rw [refStartTag_aligned' o hi level qn ad close hal hn]
+    simp [List.getElem?_append_left, h]
+  · exact (take_getElem_prefix _ ('"' :: (escapeAttr ad[i].2 ++ ['"'])) '=' _ hlen).1
+  · exact (take_getElem_prefix _ ('"' :: (escapeAttr ad[i].2 ++ ['"'])) '=' _ hlen).2
+
+/-- one attribute per line: an aligned start tag has exactly one line per attribute between the
+    `<name` line and the closing bracket line; without alignment (or with at most one attribute)
+    the start tag is a single line that holds all attributes, each preceded by a single space -/
+theorem c18_attribute_lines_count (o : Opts) (hi : o.indent ≠ []) (level : Nat) (qn : Str)
+    (ad : List (Str × Str)) (close : Str) :
+    (o.align = true → ad.length > 1 →
+      (refStartTag o level qn ad close).length = 1 + ad.length + 1 ∧
+      (refStartTag o level qn ad close).head? = some (indentN o level ++ ['<'] ++ qn) ∧
+      (refStartTag o level qn ad close).getLast? = some (indentN o level ++ close)) ∧
+    (o.align = false ∨ ad.length ≤ 1 →
+      refStartTag o level qn ad close
+        = [indentN o level ++ ['<'] ++ qn
+            ++ (ad.map (fun kv => [' '] ++ kv.1 ++ ['=', '"'] ++ escapeAttr kv.2 ++ ['"'])).flatten
+            ++ close]) := by
+  refine ⟨fun hal hn => ?_, fun h => refStartTag_plain o level qn ad close (unaligned_cond h)⟩
+  rw [refStartTag_aligned' o hi level qn ad close hal hn]
+  refine ⟨?_, by simp, List.getLast?_concat⟩
+  simp only [List.length_append, List.length_map, List.length_cons, List.length_nil] <;> omega
+
+/-- the start tag piece the serializer emits (`prettyTag` puts `layoutAttrs o level ad` into its
+    `stag` piece), written after the indentation of its level, is exactly the reference start-tag
+    lines joined by newlines — so the three theorems above describe the serializer's own output -/
+theorem c18_serializer_start_tag (o : Opts) (hi : o.indent ≠ []) (level : Nat) (qn : Str)
+    (ad : List (Str × Str)) (sc : Bool) :
+    indentN o level ++ renderPiece (.stag qn (layoutAttrs o level ad).1 (layoutAttrs o level ad).2 sc)
+      = joinLines (refStartTag o level qn ad (if sc then ['/', '>'] else ['>'])) :=
+  render_stag_piece o hi level qn ad sc
+
+/-! ## layout of a tag and its children -/
+
+/-- a data-style tag at nesting depth `level` is written as
+    * childless: the start tag closed with `/>` (self-closed);
+    * one text: the start tag line(s), the stripped text on its own line at depth `level + 1`
+      (no line if nothing but whitespace is left), the end tag line;
+    * otherwise (the first child is no text node, the text nodes are the single spaces between
+      the children): the start tag line(s), then the lines of every non-text child at depth
+      `level + 1` in document order, then the end tag line `</name>` at depth `level` -/
+theorem c18_children_on_own_lines (o : Opts) (m : Dict) (level : Nat) (ad : List (Str × Str))
+    (ns name : String) (attrs : List Attr) (kids : List Node)
+    (hd : dataStyle (.tag ns name attrs kids) = true) :
+    (kids = [] ∧
+      ppRef o m level ad (.tag ns name attrs kids)
+        = refStartTag o level ((dget m ns).getD "" ++ name).toList ad ['/', '>']) ∨
+    (∃ s, kids = [.text s] ∧ s ≠ [] ∧
+      ppRef o m level ad (.tag ns name attrs kids)
+        = refStartTag o level ((dget m ns).getD "" ++ name).toList ad ['>']
+          ++ (if (strip pyWs (normText s)).isEmpty then []
+              else [indentN o (level + 1) ++ escapeText (strip pyWs (normText s))])
+          ++ [indentN o level ++ ['<', '/'] ++ ((dget m ns).getD "" ++ name).toList ++ ['>']]) ∨
+    (∃ k rest, kids = k :: rest ∧ k.isText = false ∧
+      (∀ c ∈ kids, c.isText = true → c = .text [' ']) ∧
+      (∀ c ∈ kids, c.isText = false → dataStyle c = true) ∧
+      ppRef o m level ad (.tag ns name attrs kids)
+        = refStartTag o level ((dget m ns).getD "" ++ name).toList ad ['>']
+          ++ (kids.filter (fun c => !c.isText)).flatMap
+                (fun c => ppRef o m (level + 1) (childAttrs m c) c)
+          ++ [indentN o level ++ ['<', '/'] ++ ((dget m ns).getD "" ++ name).toList ++ ['>']]) := by
+  rcases (dataStyle_tag hd).2 with h | ⟨s, h, hs⟩ | ⟨hk, hne, _⟩
+  · subst h; exact Or.inl ⟨rfl, ppRef_no_kids ..⟩
+  · subst h; exact Or.inr (Or.inl ⟨s, rfl, hs, ppRef_one_text ..⟩)
+  · obtain ⟨k, rest, rfl, hkt⟩ := dataKids_true_head hk hne
+    exact Or.inr (Or.inr ⟨k, rest, rfl, hkt, dataKids_texts _ _ hk, dataKids_all _ _ hk,
+      ppRef_node_kids o m level ad ns name attrs k rest hkt⟩)
+
+/-- a leaf with one text that is not only whitespace, its start tag on one line: exactly three
+    lines — start tag, text at depth `level + 1`, end tag -/
+theorem c18_leaf_text_lines (o : Opts) (m : Dict) (level : Nat) (ad : List (Str × Str))
+    (ns name : String) (attrs : List Attr) (s : Str)
+    (hs : strip pyWs (normText s) ≠ []) (hal : o.align = false ∨ ad.length ≤ 1) :
+    ppRef o m level ad (.tag ns name attrs [.text s])
+      = [indentN o level ++ ['<'] ++ ((dget m ns).getD "" ++ name).toList
+            ++ (ad.map (fun kv => [' '] ++ kv.1 ++ ['=', '"'] ++ escapeAttr kv.2 ++ ['"'])).flatten ++ ['>'],
+         indentN o (level + 1) ++ escapeText (strip pyWs (normText s)),
+         indentN o level ++ ['<', '/'] ++ ((dget m ns).getD "" ++ name).toList ++ ['>']] := by
+  rw [ppRef_one_text, refStartTag_plain o level _ ad _ (unaligned_cond hal)]
+  simp [List.isEmpty_iff, hs]
+
+/-- the lines of the children of one tag: every line of the block between start and end tag
+    starts with the indentation string repeated `level + 1` times -/
+theorem c18_child_lines_indented (o : Opts) (m : Dict) (level : Nat) (kids : List Node) :
+    ∀ l ∈ (kids.filter (fun c => !c.isText)).flatMap (fun c => ppRef o m (level + 1) (childAttrs m c) c),
+      ∃ rest, l = indentN o (level + 1) ++ rest := by
+  intro l hl
+  obtain ⟨c, _, hc⟩ := List.mem_flatMap.1 hl
+  exact (ref_lines_indented o m).1 c (level + 1) _ l hc
+
+/-! ## non-vacuity: three attributes of different name lengths at depth 1, tab indentation -/
+
+/-- the serializer's output -/
+example :
+    (match prettyRoot { indent := "\t".toList, align := true } [("", "")]
+        (.tag "" "root" [] [.tag "" "item" [⟨"", "a", "1".toList⟩, ⟨"", "bcd", "2".toList⟩, ⟨"", "ef", "3".toList⟩] []]) with
+      | .ok ps => String.ofList (renderP ps)
+      | .error _ => "")
+    = "<root>\n\t<item\n\t \t  a=\"1\"\n\t \tbcd=\"2\"\n\t \t ef=\"3\"\n\t/>\n</root>" := by rfl
+
+/-- the reference output, line by line -/
+example :
+    (ppRef { indent := "\t".toList, align := true } [("", "")] 0 []
+        (.tag "" "root" [] [.tag "" "item" [⟨"", "a", "1".toList⟩, ⟨"", "bcd", "2".toList⟩, ⟨"", "ef", "3".toList⟩] []])).map
+      String.ofList
+    = ["<root>", "\t<item", "\t \t  a=\"1\"", "\t \tbcd=\"2\"", "\t \t ef=\"3\"", "\t/>", "</root>"] := by rfl
+
+/-- the start tag alone; the equal signs are at column 6 of each attribute line -/
+example :
+    (refStartTag { indent := "\t".toList, align := true } 1 "item".toList
+        [("a".toList, "1".toList), ("bcd".toList, "2".toList), ("ef".toList, "3".toList)] ['/', '>']).map String.ofList
+    = ["\t<item", "\t \t  a=\"1\"", "\t \tbcd=\"2\"", "\t \t ef=\"3\"", "\t/>"] := by rfl
+
+example :
+    (((refStartTag { indent := "\t".toList, align := true } 1 "item".toList
+        [("a".toList, "1".toList), ("bcd".toList, "2".toList), ("ef".toList, "3".toList)] ['/', '>']).drop 1).take 3).map
+      (fun l => l[6]?)
+    = [some '=', some '=', some '='] := by decide
+
+/-- without alignment: one line -/
+example :
+    (refStartTag { indent := "\t".toList, align := false } 1 "item".toList
+        [("a".toList, "1".toList), ("bcd".toList, "2".toList), ("ef".toList, "3".toList)] ['/', '>']).map String.ofList
+    = ["\t<item a=\"1\" bcd=\"2\" ef=\"3\"/>"] := by rfl
 
 end Delb.Pretty
